@@ -549,6 +549,25 @@ class Gen(object):
             return self.data_leaf(sc)
         return self.lit_of(self.gen_value(ty, 1), ty)
 
+    def has_pair_list(self, t):
+        k = t[0]
+        if k == "List":
+            return t[1][0] == "Pair" or self.has_pair_list(t[1])
+        if k in ("Tuple", "Pair"):
+            return any(self.has_pair_list(x) for x in t[1:])
+        if k == "Adt":
+            return any(self.has_pair_list(x) for x in t[2])
+        return False
+
+    def upcast(self, name, e):
+        """`let name: Data = e  name`. When the Data encoding depends on a type the expression alone may not
+        determine (an empty `List<Pair<..>>` is a Map, an empty list of an unknown type is a List), the value is
+        first bound with its full type annotation."""
+        if self.has_pair_list(e.ty) and e.K != "Var":
+            t = self.fresh("v")
+            return G.Let(G.PVar(t, e.ty), e.ty, e, G.Let(G.PVar(name, DATA), DATA, G.Var(t, e.ty), G.Var(name, DATA), DATA), DATA)
+        return G.Let(G.PVar(name, DATA), DATA, e, G.Var(name, DATA), DATA)
+
     def data_leaf(self, sc):
         r = self.rng
         if r.chance(1, 2):
@@ -558,7 +577,7 @@ class Gen(object):
             t = INT
         n = self.fresh("d")
         self.feat("upcast")
-        return G.Let(G.PVar(n, DATA), DATA, self.leaf(t, sc), G.Var(n, DATA), DATA)
+        return self.upcast(n, self.leaf(t, sc))
 
     def expr(self, ty, sc, d):
         self.nodes_left -= 1
@@ -593,6 +612,8 @@ class Gen(object):
             c.append((2, lambda: self.gen_backpass(ty, sc, d, bp)))
         if self.abortiness > 0 and r.chance(1, 5):
             c.append((1, lambda: self.gen_fail(ty)))
+        if d >= 2 and k not in ("Fn", "String") and r.chance(1, 4):
+            c.append((1, lambda: self.gen_head(ty, sc, d)))
         c.append((1, lambda: self.gen_trace(ty, sc, d)))
         if k == "Int":
             c.append((12, lambda: self.gen_arith(sc, d)))
@@ -606,6 +627,10 @@ class Gen(object):
             c.append((6, lambda: self.gen_data_expr(sc, d)))
         elif k == "List":
             c.append((1, lambda: self.gen_builtin(ty, sc, d)))
+        elif ty == TPair(INT, TList(DATA)):
+            c.append((3, lambda: self.gen_builtin(ty, sc, d)))
+        elif k == "String":
+            pass
         return self.choose(c)()
 
     # -- construction -------------------------------------------------------
@@ -671,7 +696,7 @@ class Gen(object):
                 t = INT
             n = self.fresh("d")
             self.feat("upcast")
-            return G.Let(G.PVar(n, DATA), DATA, self.expr(t, sc, d - 1), G.Var(n, DATA), DATA)
+            return self.upcast(n, self.expr(t, sc, d - 1))
         if ch < 7:
             self.feat("builtin:i_data")
             return G.Builtin("i_data", [self.expr(INT, sc, d - 1)], DATA)
@@ -847,7 +872,7 @@ class Gen(object):
                     st = INT
                 ct = st if r.chance(3, 4) else self.gen_type(2, True)
                 dn = self.fresh("d")
-                rhs = G.Let(G.PVar(dn, DATA), DATA, self.expr(st, sc, d - 1), G.Var(dn, DATA), DATA)
+                rhs = self.upcast(dn, self.expr(st, sc, d - 1))
                 self.feat("upcast")
             if ct == DATA:
                 ct = INT
@@ -911,7 +936,9 @@ class Gen(object):
 
     def gen_bool(self, sc, d):
         r = self.rng
-        ch = self.choose([(6, "cmp"), (5, "eq"), (4, "and"), (4, "or"), (2, "not"), (2, "chain"), (1, "tif")])
+        ch = self.choose([(6, "cmp"), (5, "eq"), (4, "and"), (4, "or"), (2, "not"), (2, "chain"), (1, "tif"), (4, "guard")])
+        if ch == "guard":
+            return self.gen_guard(sc, d)
         if ch == "cmp":
             op = r.pick(["<", "<=", ">", ">="])
             self.feat("op:" + op)
@@ -923,6 +950,9 @@ class Gen(object):
                 t = r.pick(vs)[1]
             else:
                 t = self.gen_type(2, True)
+            svs = sc.of_type(STRING)
+            if svs and r.chance(1, 2):
+                t = STRING
             op = r.pick(["==", "==", "!="])
             self.feat("op:" + op)
             self.feat("eq:" + t[0])
@@ -955,6 +985,61 @@ class Gen(object):
         self.feat("trace_if_false")
         return G.TraceIfFalse(self.expr(BOOL, sc, d - 1), BOOL)
 
+    def gen_guard(self, sc, d):
+        """short-circuit idioms whose right operand aborts exactly when the left one decides:
+        `a != 0 && c / a > e`, `a == 0 || ..`, `xs != [] && head(xs) ..`, `and { .. }` / `or { .. }` variants"""
+        r = self.rng
+        ivs = sc.of_type(INT)
+        lvs = [(n, t) for n, t, _h in sc.visible() if t[0] == "List" and self.eqable(t) and not self.has_tvar(t)]
+        ovs = [(n, t) for n, t, _h in sc.visible() if t[0] == "Adt" and t[1] == "Option"]
+        kinds = []
+        if ivs:
+            kinds.append("int")
+        if lvs:
+            kinds.append("list")
+        if ovs:
+            kinds.append("opt")
+        if not kinds:
+            kinds = ["int"]
+        kind = r.pick(kinds)
+        conj = r.chance(1, 2)
+        if kind == "int":
+            a = G.Var(r.pick(ivs)[0], INT) if ivs else self.expr(INT, sc, d - 1)
+            if a.K != "Var":
+                n = self.fresh("v")
+                inner = self.gen_guard(sc.extend([(n, INT)]), d - 1) if d > 1 else G.Lit(True, None, BOOL)
+                if not A.occurs(n, inner):
+                    return inner
+                return G.Let(G.PVar(n, INT), None, a, inner, BOOL) if A.strict_occ(n, inner) or not A.may_abort(a) else inner
+            left = G.Bin("!=" if conj else "==", a, G.Lit(0, "dec", INT), BOOL)
+            right = G.Bin(r.pick(["<", ">", "==", ">="]), G.Bin(r.pick(["/", "%"]), self.expr(INT, sc, d - 1), a, INT), self.expr(INT, sc, max(d - 2, 0)), BOOL)
+        elif kind == "list":
+            n, t = r.pick(lvs)
+            v = G.Var(n, t)
+            if r.chance(1, 2):
+                left = G.Bin("!=" if conj else "==", v, G.ListE([], None, t), BOOL)
+            else:
+                nl = G.Builtin("null_list", [v], BOOL)
+                left = G.Un("!", nl, BOOL) if conj else nl
+            hd = G.Builtin("head_list", [v], t[1])
+            right = G.Bin(r.pick(["==", "!="]), hd, self.expr(t[1], sc, max(d - 2, 0)), BOOL)
+        else:
+            n, t = r.pick(ovs)
+            v = G.Var(n, t)
+            left = G.Bin("!=" if conj else "==", v, G.ConE("Option", 1, [], "pos", t), BOOL)
+            pn = self.fresh("p")
+            it = t[2][0]
+            body = self.expr(BOOL, sc.extend([(pn, it)]), max(d - 2, 0))
+            right = G.Expect(G.PCon("Option", 0, [(0, G.PVar(pn, it))], False, "pos", t), None, v, body, BOOL)
+        self.feat("guard:" + kind)
+        form = r.below(3)
+        if form == 0:
+            self.feat("chain:" + ("and" if conj else "or"))
+            extra = [self.expr(BOOL, sc, max(d - 2, 0))] if r.chance(1, 3) else []
+            return G.Chain("and" if conj else "or", [left, right] + extra, BOOL)
+        self.feat("op:" + ("&&" if conj else "||"))
+        return G.Bin("&&" if conj else "||", left, right, BOOL)
+
     BUILTIN_SIGS = {
         "Int": [
             ("add_integer", [INT, INT]), ("subtract_integer", [INT, INT]), ("multiply_integer", [INT, INT]),
@@ -974,12 +1059,25 @@ class Gen(object):
         ],
     }
 
+    def gen_head(self, ty, sc, d):
+        self.feat("builtin:head_list")
+        return G.Builtin("head_list", [self.expr(TList(ty), sc, d - 1)], ty)
+
     def gen_builtin(self, ty, sc, d):
         r = self.rng
         k = ty[0]
         if k == "List":
+            if ty[1] == DATA and r.chance(1, 2):
+                self.feat("builtin:un_list_data")
+                return G.Builtin("un_list_data", [G.Builtin("list_data", [self.expr(ty, sc, d - 1)], DATA)], ty)
+            if ty[1] == TPair(DATA, DATA) and r.chance(1, 2):
+                self.feat("builtin:un_map_data")
+                return G.Builtin("un_map_data", [G.Builtin("map_data", [self.expr(ty, sc, d - 1)], DATA)], ty)
             self.feat("builtin:tail_list")
             return G.Builtin("tail_list", [self.expr(ty, sc, d - 1)], ty)
+        if k == "Pair":
+            self.feat("builtin:un_constr_data")
+            return G.Builtin("un_constr_data", [G.Builtin("constr_data", [G.Lit(r.pick([0, 1, 2, 7]), "dec", INT), self.expr(TList(DATA), sc, d - 1)], DATA)], ty)
         name, ats = r.pick(self.BUILTIN_SIGS[k])
         self.feat("builtin:" + name)
         if name == "null_list":
@@ -1091,6 +1189,15 @@ class Gen(object):
                 pts = [G.subst(t, s) for _n, t in f.params]
                 return G.Capture(G.Var(f.name, TFn(pts, ty[2])), args, ty)
             c.append((3, mk_cap))
+
+        makers = [f for f in self.callable if f.ret == ty and not f.tparams]
+        if makers and d > 0:
+            def mk_call():
+                f = r.pick(makers)
+                self.feat("call:fn_returning_fn")
+                pts = [t for _n, t in f.params]
+                return G.Call(G.Var(f.name, TFn(pts, ty)), [self.expr(t, sc, d - 1) for t in pts], "plain", ty)
+            c.append((5, mk_call))
 
         def mk_lam():
             params = [(self.fresh("a"), t) for t in ty[1]]
@@ -1329,19 +1436,24 @@ class Gen(object):
         return self.expr(ty, sc, self.body_depth())
 
     # -- plain helper ---------------------------------------------------------
-    def gen_plain_fn(self):
+    def gen_plain_fn(self, name=None):
         r = self.rng
-        name = "plain_%d" % (len(self.fns) + 1)
+        name = name or "plain_%d" % (len(self.fns) + 1)
         params = []
-        for _ in range(r.range(1, 3)):
+        for _ in range(0 if r.chance(1, 12) else r.range(1, 3)):
             params.append((self.fresh("x"), self.gen_type(2, False)))
+        if not params:
+            self.feat("fn:zero_arg")
         if r.chance(1, 3):
             kt = TFn([self.gen_type(1, False) for _ in range(r.range(1, 2))], self.gen_type(1, False))
             params.append((self.fresh("k"), kt))
             self.feat("fn:higher_order")
         ret = self.gen_type(2, False)
-        if params[-1][1][0] == "Fn" and r.chance(2, 3):
+        if params and params[-1][1][0] == "Fn" and r.chance(2, 3):
             ret = params[-1][1][2]
+        elif r.chance(1, 10):
+            ret = TFn([self.gen_type(1, False)], self.gen_type(1, False))
+            self.feat("fn:returns_fn")
         body = self.gen_body(ret, Scope().extend(params))
         self.feat("fn:plain")
         self.add_fn(G.FnDef(name, [], params, ret, body, False))
@@ -1554,6 +1666,36 @@ class Gen(object):
 
     # -- entries ---------------------------------------------------------------
     def gen_entry(self, i):
+        """generate-and-test: prefer an entry whose outcome depends on its arguments and that does not always abort
+        (the interpreter is only used here to steer the generator)"""
+        import interp
+        import json as _json
+
+        best = None
+        for _try in range(5):
+            saved_feats = dict(self.features)
+            e = self.gen_entry_once(i)
+            feats_after = self.features
+            m = G.Module(self.adts, self.consts, self.fns, [e], {}, {})
+            argv = gen_args(self.rng, [t for _n, t in e.fn.params], 6, self.adts, e.hints)
+            outs = []
+            for tup in argv:
+                try:
+                    outs.append(interp.run(m, e, list(tup), 20000))
+                except Exception:
+                    outs.append(("error",))
+            distinct = len(set(_json.dumps(o, sort_keys=True) for o in outs))
+            aborts = sum(1 for o in outs if o[0] != "ok")
+            score = (2 if distinct > 1 else 0) + (1 if aborts < len(outs) else 0) + (1 if aborts == 0 and distinct > 1 else 0)
+            if best is None or score > best[0]:
+                best = (score, e, feats_after)
+            if score >= 3:
+                break
+            self.features = saved_feats
+        self.features = best[2]
+        return best[1]
+
+    def gen_entry_once(self, i):
         r = self.rng
         params = []
         hints = []
@@ -1572,7 +1714,7 @@ class Gen(object):
         sc = Scope().extend_h(params)
         self.nodes_left = self.body_budget() + 8
         inner = self.expr(rt, sc, self.body_depth())
-        body = G.Let(G.PVar("result", DATA), DATA, inner, G.Var("result", DATA), DATA)
+        body = self.upcast("result", inner)
         f = G.FnDef("entry_%d" % i, [], [(n, t) for n, t, _h in params], DATA, body, True)
         return G.Entry(f, hints, rt)
 
@@ -1600,11 +1742,22 @@ class Gen(object):
                 self.gen_rec_adt_fn()
             else:
                 self.gen_mutual_fns()
+        meta = {}
+        if r.chance(1, 4) and (self.adts or self.fns or self.consts) and not self.opts.get("single_module"):
+            self.feat("layout:two_modules")
+            if self.fns and r.chance(1, 2):
+                # a helper local to module `m` that carries the same name as a helper of module `lib`
+                # (the latter is then referred to as `lib.name`)
+                victim = r.pick(self.fns)
+                local = "local_%d" % (len(self.fns) + 1)
+                self.gen_plain_fn(local)
+                meta = {"alias": {local: victim.name}, "qualified": [victim.name], "local": [local]}
+                self.feat("layout:same_name_in_two_modules")
         entries = [self.gen_entry(i) for i in range(self.choose([(3, 1), (4, 2), (2, 3)]))]
         for fn, insts in self.inst_seen.items():
             if len(insts) >= 2:
                 self.feat("generic:multi_instantiation")
-        return G.Module(self.adts, self.consts, self.fns, entries, dict(self.features))
+        return G.Module(self.adts, self.consts, self.fns, entries, dict(self.features), meta)
 
 
 def generate_module(rng, size=3, opts=None):
